@@ -100,6 +100,18 @@ def check(case, ctx):
         return
     s = out.value
     judge(ctx, s, p, kw)
+    # another, unrelated data set built afterwards - with the opposite normalisation option and the same reference-vector arrays, as a caller
+    # comparing both settings would - must leave this object's reported references and data as they were
+    names = ("reference_magnetic_vector", "reference_magnetic_vector_enu", "reference_gravitational_vector", "magnetometers", "accelerometers", "gyroscopes")
+    snap = {n_: np.array(getattr(s, n_), float).tobytes() for n_ in names if getattr(s, n_, None) is not None}
+    kw2 = {k_: v_ for k_, v_ in kw.items() if k_ in ("reference_gravitational_vector", "reference_magnetic_vector")}       # the very same array objects
+    other = call(lambda: S.Sensors(num_samples=12, normalized_mag=not kw.get("normalized_mag", False), **kw2))
+    if ctx.returned(other, clause="no-exception[another data set built afterwards]"):
+        changed = [n_ for n_ in snap if np.array(getattr(s, n_), float).tobytes() != snap[n_]]
+        ctx.ok("building another data set leaves this one's reported references and data as they were", not changed,
+               {"changed": changed, "normalized_mag_here": kw.get("normalized_mag", False), "references_given": sorted(kw2)})
+        if changed:      # (keep the rest of this case meaningful)
+            return
     # generate() is a public method: calling it again on the same object must produce a fresh, equally consistent data set
     again = call(lambda: s.generate(s.rotations))
     if ctx.returned(again, clause="no-exception[generate() called again]"):
